@@ -70,6 +70,13 @@ CbSigs ==
   \cup {Sg(K("none"), <<c, d>>, FALSE, UnitT) : c \in {CbT(<<P("u8")>>, P("u8"))}, d \in {CbT(<<>>, UnitT), CbT(<<EnumT>>, EnumT)}}
   \cup {Sg(K("opqmut"), <<CbT(<<P("f64")>>, P("f64"))>>, TRUE, UnitT)}
   \cup {Sg(K("opq"), <<CbT(<<P("u8")>>, P("bool")), StrT("utf8", FALSE)>>, FALSE, ResT(P("u8"), EnumT))}
+  \* a callback declared AFTER parameters that are passed in memory (aggregates > 16 bytes, the 7th integer): the callback
+  \* object itself is passed in memory too, so only then does a reordering of the native parameter list show
+  \cup {Sg(K("none"), <<StructT("Mix"), CbT(<<P("u8")>>, P("u8"))>>, FALSE, P("u32"))}
+  \cup {Sg(K("opq"), <<StructT("Nest"), CbT(<<>>, UnitT), P("u8")>>, FALSE, P("u8"))}
+  \cup {Sg(K("opq"), <<OptT("std", StrT("utf8", FALSE)), CbT(<<P("i16")>>, P("bool"))>>, FALSE, UnitT)}
+  \cup {Sg(K("opq"), <<SliceT("u8", "imm"), StructT("WOpt"), CbT(<<EnumT>>, EnumT), CbT(<<>>, P("u8")), StructT("Wide")>>, FALSE, P("i64"))}
+  \cup {Sg(K("opq"), <<P("u64"), P("u64"), P("u64"), P("u64"), P("u64"), P("u64"), CbT(<<P("u64")>>, P("u64")), P("u64")>>, FALSE, P("u64"))}
 \* native signature of run_callback: the data pointer first, then the arguments in order
 CbShape(c) == [ret |-> Shape(c.r), params |-> <<PtrS>> \o [i \in 1..Len(c.ps) |-> Shape(c.ps[i])]]
 
@@ -81,8 +88,10 @@ Init == IF Mode = "cover" THEN sig \in CoverSigs /\ stage = "done"
         ELSE IF Mode = "cb" THEN sig \in CbSigs /\ stage = "done"
         ELSE sig = Sg(K("none"), <<>>, FALSE, UnitT) /\ stage = "self"
 PickSelf == stage = "self" /\ \E sf \in SelfKinds : sig' = [sig EXCEPT !.self = sf] /\ stage' = "params"
+\* random combinations may also place a callback anywhere in the parameter list
+RandParamTypes == ParamTypes \cup {CbT(<<P("u8")>>, P("u8")), CbT(<<StructT("Inner"), EnumT>>, UnitT), CbT(<<>>, P("f64"))}
 AddParam == stage = "params" /\ Len(sig.params) < MaxParams
-            /\ \E t \in ParamTypes : sig' = [sig EXCEPT !.params = Append(@, t)] /\ UNCHANGED stage
+            /\ \E t \in RandParamTypes : sig' = [sig EXCEPT !.params = Append(@, t)] /\ UNCHANGED stage
 EndParams == stage = "params" /\ stage' = "ret" /\ UNCHANGED sig
 PickRet == stage = "ret" /\ \E r \in RetTypes, w \in BOOLEAN :
               /\ RetOK(sig.self, r) /\ (w => WriteOK(r))
